@@ -19,6 +19,7 @@ type Clause struct {
 	Loop int    // for invariants
 	Site string // for call-site asserts: callee#k
 	Args []string
+	Mode string // "", "int", "bv": only visible in that mode
 	File string
 	Line int
 }
@@ -136,6 +137,12 @@ func (ss *SpecSet) parseFile(path string) error {
 		if i := strings.IndexAny(t, " \t"); i >= 0 {
 			kw, rest = t[:i], strings.TrimSpace(t[i+1:])
 		}
+		cmode := ""
+		if (kw == "int" || kw == "bv") && (strings.HasPrefix(rest, "requires ") || strings.HasPrefix(rest, "ensures ") || strings.HasPrefix(rest, "loop ") || strings.HasPrefix(rest, "assert ")) {
+			cmode = kw
+			i := strings.IndexAny(rest, " \t")
+			kw, rest = rest[:i], strings.TrimSpace(rest[i+1:])
+		}
 		fail := func(f string, a ...any) error {
 			return fmt.Errorf("%s:%d: %s", path, l.no, fmt.Sprintf(f, a...))
 		}
@@ -148,7 +155,7 @@ func (ss *SpecSet) parseFile(path string) error {
 			if tg == nil && cur != nil {
 				tg = cur.Tags
 			}
-			return &Clause{Kind: kind, Expr: e, Text: text, Tags: tg, File: path, Line: l.no}, nil
+			return &Clause{Kind: kind, Expr: e, Text: text, Tags: tg, File: path, Line: l.no, Mode: cmode}, nil
 		}
 		switch kw {
 		case "func", "lemma":
